@@ -487,10 +487,16 @@ def fam_nestf():
 def fam_foreign():
     """script and style inside foreign content (svg, math): their bodies stay raw text for the tokenizer and must never be written."""
     base = [call("NewPolicy"), call("AllowElements", names=["b"])]
+    # the Require* options force attributes on elements; they must not put any element on the allowlist by themselves
+    options = base + [call("RequireCrossOriginAnonymous", b=True), call("RequireSandboxOnIFrame", vals=["allow-forms"]),
+                      call("RequireNoFollowOnLinks", b=True), call("AddTargetBlankToFullyQualifiedLinks", b=True)]
     recipes = [base, base + [call("AllowElements", names=["svg", "math"]), call("AllowElementsContent", names=["script", "style"])],
-               [call("UGCPolicy")], [call("StrictPolicy")]]
+               [call("UGCPolicy")], [call("StrictPolicy")], options]
     toks = [tok("start", "svg"), tok("end", "svg"), tok("start", "math"), tok("end", "math"), tok("start", "script"), tok("end", "script"),
-            tok("start", "style"), tok("end", "style"), tok("start", "b"), tok("end", "b"), tok("text", d="BODYTEXT"), tok("text", d="<b>x</b>BODYTAIL")]
+            tok("start", "style"), tok("end", "style"), tok("start", "b"), tok("end", "b"), tok("text", d="BODYTEXT"), tok("text", d="<b>x</b>BODYTAIL"),
+            tok("start", "video", (("crossorigin", "use-credentials"), ("src", "/v"))), tok("end", "video"),
+            tok("start", "iframe", (("sandbox", "allow-forms"), ("src", "/f"))), tok("end", "iframe"),
+            tok("start", "area", (("href", "http://e.com/"), ("rel", "x"), ("target", "_blank")))]
     return dict(name="foreign", recipes=recipes, tokens=toks, wellnested=True)
 
 def fam_nestx():
